@@ -297,6 +297,9 @@ pub fn sexp_ast(a: &ExprAST) -> String {
 // ---------------------------------------------------------------------------------------
 // reference evaluator
 
+/// id of a context function that always returns an error
+pub const FAILING_FUNC: u32 = 9000;
+
 #[derive(Clone, Debug)]
 pub enum Binding {
     Var(V),
@@ -364,6 +367,9 @@ impl Model {
 
     fn logger(&mut self, id: u32, args: Vec<V>, ret: &V) -> Res {
         self.log.push((id, args.clone()));
+        if id == FAILING_FUNC {
+            return Err(err("context-function-fails"));
+        }
         if let Some((name, new_id)) = self.side_effects.get(&id).cloned() {
             self.loggers.functions.insert(name, (new_id, V::None));
         }
@@ -729,19 +735,18 @@ pub fn builtin_function(name: &str, args: Vec<V>) -> Res {
                     Ok(V::Num(best))
                 }
                 _ => {
+                    // a left fold: as long as every partial result is exactly representable the
+                    // next one is known exactly; the first partial result that certainly leaves the
+                    // range is an overflow, the first that needs rounding ends what can be said
                     let mut acc = nums[0].clone();
-                    let mut partial_trouble = false;
                     for d in &nums[1..] {
                         acc = if name == "sum" { acc.add(d) } else { acc.mul(d) };
-                        if acc.magnitude_overflows() || !acc.representable() {
-                            partial_trouble = true;
+                        if acc.magnitude_overflows() {
+                            return Err(err("overflow"));
                         }
-                    }
-                    if acc.magnitude_overflows() {
-                        return Err(err("overflow"));
-                    }
-                    if partial_trouble {
-                        return Err(Stop::Unspec("intermediate-out-of-range".into()));
+                        if !acc.representable() {
+                            return Err(Stop::Unspec("intermediate-needs-rounding".into()));
+                        }
                     }
                     num_result(acc)
                 }
